@@ -171,6 +171,8 @@ def run(ctx, rep):
     check_calls_are_calls(ctx, rep, 'R14.7')
     rep.rule('R14.8', 'print substitutes in one pass: text that an argument inserted is never searched for placeholders again')
     rep.rule('R14.9', 'print prints all of its format text: the walk over the pieces between the placeholders is not cut short by the number of arguments')
+    rep.rule('R14.10', 'the text of a value depends on the value only: a list of arrays being printed (a guard against arrays that contain themselves) is scoped - each entry is removed when its array is done, so an array that occurs twice prints twice')
+    check_print_guard_scoped(ctx, rep, 'R14.10')
     check_print_single_pass(ctx, rep, 'R14.8', 'R14.9')
 
 
@@ -271,3 +273,57 @@ def check_calls_are_calls(ctx, rep, rule):
         rep.ob(len(calls) == 1 and emits[-1:] == tuple(calls), rule, 'compiler::Compiler::compile_expression', 'call path ' + tr,
                'the code of a call ends in exactly one call instruction (emitted here: %s)' % (list(emits),), 'src/compiler.rs')
     rep.count('call_paths', len(seen))
+
+
+def check_print_guard_scoped(ctx, rep, rule):
+    """The text of a value is a function of the value.  A printing routine that keeps a list of what it is `in the middle of`
+    (to stop at an array that contains itself) must take each entry out again when it is done with it: a list that only grows
+    answers `already seen` for an array that merely occurs twice - `[a, a]` would print its second element as a cycle."""
+    from rules.c04 import _root_local
+    F = ctx.facts()
+    roots = [k for k in F.fns if k.endswith('core::fmt::Display>::fmt') and 'object::Object' in k]
+    seen_fns, work = set(), list(roots)
+    while work:
+        k = work.pop()
+        if k in seen_fns or k not in F.fns or F.fns[k].crate != 'lib':
+            continue
+        seen_fns.add(k)
+        for b, t in F.fns[k].calls():
+            for p_ in callee_paths(t):
+                if p_ in F.fns and p_ not in seen_fns:
+                    work.append(p_)
+    ADD = ('Vec::<T, A>::push', '::insert')
+    HAS = ('::contains', '::any')
+    DEL = ('Vec::<T, A>::pop', '::remove', '::truncate', '::swap_remove', '::clear')
+    n = 0
+    for k in sorted(seen_fns):
+        fn = F.fns[k]
+        tested = set()
+        for b, t in fn.calls():
+            if callee_name(t).endswith(HAS) and t['args']:
+                tested.add(str(_root_local(fn, t['args'][0])))
+        for b, t in fn.calls():
+            nm = callee_name(t)
+            if not (nm.endswith(ADD) and t['args']):
+                continue
+            r = str(_root_local(fn, t['args'][0]))
+            if r not in tested:
+                continue
+            n += 1
+            # from the insertion, is a normal return reachable without taking the entry out again?  (`?` error exits do not count:
+            # a failed print prints nothing more)
+            stop = set()
+            for b2, t2 in fn.calls():
+                n2 = callee_name(t2)
+                if n2.endswith(DEL) and t2['args'] and str(_root_local(fn, t2['args'][0])) == r:
+                    stop.add(b2)
+                if n2.endswith('FromResidual<core::result::Result<core::convert::Infallible, E>>>::from_residual') or n2.endswith('::from_residual'):
+                    stop.add(b2)
+            reach = fn.reachable(t['target'], stop=stop) if t.get('target') is not None else set()
+            leaks = [x for x in reach if fn.term(x)['k'] == 'return']
+            rep.ob(not leaks, rule, k, 'visit guard entry removed',
+                   'an entry put on the list that answers `am I inside this array already` is taken out again before the routine returns normally: otherwise an array that occurs twice (not inside itself) is printed as a cycle',
+                   span_loc(t['span']))
+    if not n:
+        rep.good(rule, 'object::Object', 'printing keeps no visit list', 'no routine reachable from Display for Object (%d functions) both tests and fills a collection' % len(seen_fns), 'src/object.rs', nontrivial=False)
+    rep.count('print_visit_guards', n)
